@@ -90,7 +90,7 @@ fn run_case(seed: u64, user: &Project, entry: &str, c: &mut Case) {
     }
   };
   match wasmi::validate(&compiled.wasm) {
-    Err(e) => c.wasm_invalid = Some(e),
+    Err(e) => c.wasm_invalid = Some(format!("{e} in {}", locate(&compiled.wasm, &e))),
     Ok(()) => {
       let (t, _) = wasmi::run(&compiled.wasm, &compiled.main_fn, &limits());
       c.wasm_trace = Some(t);
@@ -100,6 +100,33 @@ fn run_case(seed: u64, user: &Project, entry: &str, c: &mut Case) {
     Ok(js) => c.js = Some(js),
     Err(e) => c.erase_err = Some(e),
   }
+}
+
+/// name of the function whose body contains the byte offset mentioned in a validation error
+fn locate(bytes: &[u8], err: &str) -> String {
+  let Some(off) = err.rsplit("offset ").next().and_then(|s| s.trim_end_matches(')').parse::<usize>().ok()) else { return "?".into() };
+  let mut imports = 0u32;
+  let mut k = 0u32;
+  for p in wasmparser::Parser::new(0).parse_all(bytes).flatten() {
+    match p {
+      wasmparser::Payload::ImportSection(r) => {
+        for i in r.into_iter().flatten() {
+          let _ = i;
+          imports += 1;
+        }
+      }
+      wasmparser::Payload::CodeSectionEntry(b) => {
+        let r = b.range();
+        if r.start <= off && off < r.end {
+          let idx = imports + k;
+          return wasmi::function_names(bytes).into_iter().find(|(i, _)| *i == idx).map(|(_, n)| n).unwrap_or(format!("func {idx}"));
+        }
+        k += 1;
+      }
+      _ => {}
+    }
+  }
+  "?".into()
 }
 
 fn run_ts(cases: &mut [Case]) {
@@ -256,6 +283,34 @@ fn parse_file_project(text: &str) -> (Project, String) {
   (p, entry)
 }
 
+/// split a module text into removable items: level 0 = classes, 1 = members, 2 = lines
+fn chunks(text: &str, level: usize) -> Vec<String> {
+  let lines: Vec<&str> = text.split('\n').collect();
+  if level == 2 {
+    return lines.iter().map(|s| s.to_string()).collect();
+  }
+  let mut out: Vec<String> = Vec::new();
+  let mut cur: Vec<&str> = Vec::new();
+  let is_member = |l: &str| l.starts_with("  function ") || l.starts_with("  method ") || l.starts_with("  private ");
+  let is_class = |l: &str| l.starts_with("class ") || l.starts_with("interface ") || l.starts_with("private class ");
+  for l in lines {
+    let start = if level == 0 { is_class(l) || l.starts_with("import ") } else { is_class(l) || is_member(l) || l == "}" || l.starts_with("import ") };
+    if start && !cur.is_empty() {
+      out.push(cur.join("\n"));
+      cur.clear();
+    }
+    cur.push(l);
+    if level == 1 && (is_class(l) || l == "}") {
+      out.push(cur.join("\n"));
+      cur.clear();
+    }
+  }
+  if !cur.is_empty() {
+    out.push(cur.join("\n"));
+  }
+  out
+}
+
 fn print_trace(name: &str, t: &Trace) {
   println!("--- {name}: {} lines, ending {:?}, ub [{}]", t.lines.len(), t.ending, ub_string(t));
   for l in &t.lines {
@@ -346,7 +401,7 @@ fn main() {
       let text = std::fs::read_to_string(&args[2]).expect("read file");
       let (p, entry) = parse_file_project(&text);
       match front::compile_project(&p.with_std(), &entry) {
-        Ok(c) => print!("{}", c.ts),
+        Ok(c) => print!("{}", if std::env::var("WAT").is_ok() { c.wat } else { c.ts }),
         Err(e) => println!("{e}"),
       }
       return;
@@ -404,25 +459,32 @@ fn main() {
       }
       loop {
         let before: usize = p.modules.iter().map(|(_, t)| t.len()).sum();
-        for k in 0..p.modules.len() {
-          let lines: Vec<String> = p.modules[k].1.split('\n').map(|s| s.to_string()).collect();
-          let base = p.clone();
-          let mut budget = 4000usize;
-          let kept = vcore::ddmin::ddmin_list(
-            lines,
-            &mut |c: &[String]| {
-              let mut q = base.clone();
-              q.modules[k].1 = c.join("\n");
-              pred(&q)
-            },
-            &mut budget,
-          );
-          p.modules[k].1 = kept.join("\n");
+        // three granularities: whole classes, whole members, single lines
+        for level in 0..3 {
+          for k in 0..p.modules.len() {
+            let items = chunks(&p.modules[k].1, level);
+            let base = p.clone();
+            let mut budget = 3000usize;
+            let kept = vcore::ddmin::ddmin_list(
+              items,
+              &mut |c: &[String]| {
+                let mut q = base.clone();
+                q.modules[k].1 = c.join("\n");
+                pred(&q)
+              },
+              &mut budget,
+            );
+            p.modules[k].1 = kept.join("\n");
+          }
         }
         let after: usize = p.modules.iter().map(|(_, t)| t.len()).sum();
         if after >= before {
           break;
         }
+      }
+      if std::env::var("CALIB_GEN_TOKENS").is_ok() {
+        let mods = vcore::ddmin::minimise_modules(&p.modules, &mut |m: &[(String, String)]| pred(&Project { modules: m.to_vec() }), 6000);
+        p = Project { modules: mods };
       }
       println!("// minimised with {tests} tests (kind {kind} {sub:?})");
       print!("{}", render_project(&p));
@@ -585,6 +647,34 @@ fn main() {
       let k = format!("wasm!=ts (both != ref): {}", classify(c, w.unwrap(), t.unwrap()));
       groups.entry(k).or_default().push((c.seed, diff("wasm", w.unwrap(), "ts", t.unwrap())));
     }
+  }
+  if let Ok(path) = std::env::var("CALIB_GEN_DUMP") {
+    // one line per seed: seed <TAB> status words <TAB> features (for offline grouping)
+    let mut out = String::new();
+    for c in &cases {
+      let mut st: Vec<String> = Vec::new();
+      if let Some(e) = &c.compile_err {
+        st.push(format!("compile:{}", if e.contains("Option::unwrap") { "unwrap-none" } else if e.contains("$any") { "any" } else if e.contains("unknown func") { "unknown-func" } else { "other" }));
+      }
+      if let Some(e) = &c.wasm_invalid {
+        st.push(format!("wasm-invalid:{}", if e.contains("found (ref eq)") { "ref-eq" } else { "other" }));
+      }
+      if c.erase_err.is_some() {
+        st.push("ts-erase".into());
+      }
+      if let (Some(r), Some(w)) = (&c.ref_trace, &c.wasm_trace) {
+        if !same(r, w) {
+          st.push(format!("ref!=wasm:{}", classify(c, r, w).replace(' ', "_")));
+        }
+      }
+      if let (Some(r), Some(t)) = (&c.ref_trace, &c.ts_trace) {
+        if !same(r, t) {
+          st.push(format!("ref!=ts:{}", classify(c, r, t).replace(' ', "_")));
+        }
+      }
+      out.push_str(&format!("{}\t{}\t{}\n", c.seed, st.join(" "), c.features.iter().cloned().collect::<Vec<_>>().join(" ")));
+    }
+    let _ = std::fs::write(path, out);
   }
   let accepted = cases.len() - rejected;
   println!("\n================ calib_gen report ({} seeds) ================", cases.len());
